@@ -71,7 +71,8 @@ def _to_float(x):
     if isinstance(x, CV):
         return x.v
     if isinstance(x, SV):
-        return mpmath.mpf(x.v.numerator) / mpmath.mpf(x.v.denominator)
+        from .conc import _m
+        return _m(x)
     if isinstance(x, Fraction):
         return mpmath.mpf(x.numerator) / mpmath.mpf(x.denominator)
     return mpmath.mpf(float(x))
